@@ -1,5 +1,6 @@
 """C08 — packet identifiers unique among outstanding exchanges, never zero (allocator level)."""
 from vlib import *
+import client_check as CC
 
 
 def gen_case(rng, kind):
@@ -167,6 +168,8 @@ def run(ctx):
                 a, _, _ = run_lines(hb, small); b, _, _ = run_lines(mdrv, small)
                 ctx.ties_broken.append("correspondence:pid lock-step differs (model vs implementation)")
                 ctx.notes.append({"pid_mismatch_script": small, "impl": a, "model": b})
+    fails = CC.run_scenarios(ctx, "C08", 200 if ctx.tier == "quick" else 5000, steps=60)
+    found = CC.report(ctx, "C08", fails) or found
     report_broken_ties(ctx, found)
     if ctx.tier == "thorough" and not ctx.ties_broken:
         for m, msg in leanchecker(ctx.lean.get("modules", [])):
